@@ -101,6 +101,7 @@ class Producer(object):
 
     _sendLooper = None
     _sendLooperD = None
+    stopping = False
 
     def __init__(
         self,
@@ -389,8 +390,8 @@ class Producer(object):
             topicPart = TopicAndPartition(topic, partition)
             payloads.append(req)
             payloadsByTopicPart[topicPart] = req
-        # Make sure we have some payloads to send
-        if not payloads:
+        # Make sure we have some payloads to send (and may still send them)
+        if not payloads or self.stopping:
             return
         # send the request
         d = self.client.send_produce_request(
@@ -445,7 +446,7 @@ class Producer(object):
         # We can be triggered by the LoopingCall, and have nothing to send...
         # Or, we've got SendRequest(s) to send, but are still processing the
         # previous batch...
-        if (not self._batch_reqs) or self._batch_send_d:
+        if (not self._batch_reqs) or self._batch_send_d or self.stopping:
             return
 
         # Save a local copy, and clear the global list & metrics
@@ -574,9 +575,9 @@ class Producer(object):
             failed_payloads - list of (payload, failure) tuples
             """
             # Do we have retries left?
-            if self._req_attempts >= self._max_attempts:
-                # No, no retries left, fail each failed_payload with its
-                # associated failure
+            if self._req_attempts >= self._max_attempts or self.stopping:
+                # No, no retries left (or stop() was called), fail each
+                # failed_payload with its associated failure
                 for p, f in failed_payloads_with_errs:
                     t_and_p = TopicAndPartition(p.topic, p.partition)
                     if not isinstance(f, Failure):
